@@ -57,7 +57,8 @@ def showOptFloats (l : List (Option Float)) : String :=
 * `m19 map3 <n> (<12 coords> <4 values>)ⁿ (x y z)*` / `m19 map2 <n> (<6 coords> <3 values>)ⁿ (x y)*` → `mapMesh3` / `mapMesh2` on a triangulation of `n` simplices
 * `m19 block nx ny nz`                → the rows `node elem …` of `blockRows` with 0-based grid numbers as ids
 * `m19 surf (node elem)*`             → `node:0|1 …` sorted node ids (1 = fewer than 8 elements meet)
-* `m19 inc nx ny nz`                  → `incidentCount` of every grid node, x fastest -/
+* `m19 inc nx ny nz`                  → `incidentCount` of every grid node, x fastest (no longer sent by harness/c19.py: the
+  surface cases use `m19 block` + `m19 surf`) -/
 def handleMesh : List String → Option String
   | "m19" :: "g3d" :: rest => do
     let rows ← parseMeshRows 4 rest
